@@ -1051,6 +1051,27 @@ public:
     for (const CXXBaseSpecifier& B : D->getTemplatedDecl()->bases()) bs.push_back(B.getType().getAsString(WP));
     o["bases"] = std::move(bs);
     o["abstract"] = D->getTemplatedDecl()->isAbstract();
+    // friend functions defined inside the class ("hidden friends"): found by argument-dependent lookup only and
+    // instantiated only when used, so the driver has to call each one
+    json::Array hf;
+    for (const FriendDecl* FDc : D->getTemplatedDecl()->friends()) {
+      const NamedDecl* ND = FDc->getFriendDecl();
+      if (!ND) continue;
+      const FunctionDecl* F = dyn_cast<FunctionDecl>(ND);
+      json::Object h;
+      if (const auto* FT = dyn_cast<FunctionTemplateDecl>(ND)) {
+        F = FT->getTemplatedDecl();
+        h["tparams"] = tparams(FT->getTemplateParameters());
+      }
+      if (!F || !F->doesThisDeclarationHaveABody()) continue;
+      h["sname"] = F->getNameAsString();
+      h["loc"] = X.locStr(F->getLocation());
+      json::Array ps;
+      for (const ParmVarDecl* P : F->parameters()) ps.push_back(P->getType().getAsString(WP));
+      h["params"] = std::move(ps);
+      hf.push_back(std::move(h));
+    }
+    o["hidden_friends"] = std::move(hf);
     classTemplates.push_back(std::move(o));
     return true;
   }
